@@ -435,6 +435,11 @@ def writeToCsvColl (f : CsvFmt) (geo : Bool) (pf : List Tok) (header : Nat) (tra
     Except String (List Str) :=
   tracks.mapM (fun rows => writeToCsv f geo pf header rows srid)
 
+/-- `TrackWriter.writeToFile(track, path)` with every other argument left at its default (`id_E = id_N = -1`): the branch that
+builds the format `E` in column 0, `N` in column 1, no `U`, no time, separator `,`, no header -/
+def writeToFileDefault (geo : Bool) (pf : List Tok) (rows : List Row) (srid : Str := "ENU".toList) : Except String Str :=
+  writeToFile ⟨0, 1, -1, -1, ','⟩ geo pf 0 0 (rows.map (fun r => (r, []))) srid []
+
 /-- the lines of a text as `readline()` delivers them, without their newline (an empty element is
 an empty line inside the file; the end of the list is end of file) -/
 def fileLines (s : Str) : List Str :=
@@ -510,6 +515,13 @@ def skipHeader : Nat → List Str → Except String (List Str)
 def readCsv (f : CsvFmt) (rf : List Tok) (header : Nat) (text : Str) : Except String (List RRow) := do
   let ls ← skipHeader header (fileLines text)
   readLines f rf '#' ls
+
+/-- `TrackReader.readFromCsv(<directory>, …)` = `readFromFile` on a directory: every file of the listing (`texts`, in the order
+`os.listdir` delivers them) is read with the same format; files that give an empty track are skipped; the others make up the
+collection, in listing order -/
+def readCsvDir (f : CsvFmt) (rf : List Tok) (header : Nat) (texts : List Str) : Except String (List (List RRow)) := do
+  let ts ← texts.mapM (readCsv f rf header)
+  pure (ts.filter (fun t => !t.isEmpty))
 
 /-! ### (b') `read_all`: the feature columns
 
@@ -843,6 +855,15 @@ def gpxLines (name : Str) (rows : List GRow) : List Str :=
 contains the current time); coordinates `{:3.8f}` of `n / 10^8`, zone 0 (`Z`), time printed with
 `4Y-2M-2DT2h:2m:2s` -/
 def gpxBody (name : Str) (rows : List GRow) : Str := ((gpxLines name rows).map (· ++ ['\n'])).flatten
+
+/-- the lines of one track inside a GPX file -/
+def trkLines (name : Str) (rows : List GRow) : List Str :=
+  [lTrk, lName name, lSeg] ++ (rows.map ptLines).flatten ++ [lEndSeg, lEndTrk]
+
+/-- `writeToGpx(collection, path)` (`oneFile=True`, the default) for a collection of tracks `(tid, points)`: one `<trk>` element
+per track in the order of the collection, then `</gpx>` (from the first `<trk>` line on) -/
+def gpxBodyColl (tracks : List (Str × List GRow)) : Str :=
+  (((tracks.map (fun t => trkLines t.1 t.2)).flatten ++ [lEndGpx]).map (· ++ ['\n'])).flatten
 
 /-! `writeToGpx(..., af=True)`: after `<time>` every track point carries an `<extensions>` block with one line per
 analytical feature of the track, `<name>str(value)</name>` -/
